@@ -60,6 +60,41 @@ Definition glue_C18 (k : string) (a o : list value) : option verdict :=
     | [VZ s; VZ ns], [VZ okk; VZ bs; VZ bns] =>
         Some (functional [VZ 1; VZ s; VZ ns] o ((okk =? 1) && (bs =? s) && (bns =? ns))%bool)
     | _, _ => Some (relational false false) end
+  else if is k "csptp.ts_reencode" then
+    (* any 32-bit nanoseconds field: wire -> time -> wire; observed: ok flag, seconds, nanoseconds (0 0 0 on panic) *)
+    match a, o with
+    | [VZ s; VZ ns], [VZ okk; VZ bs; VZ bns] =>
+        match csptp_ts_of_time (csptp_time_of_ts s ns) with
+        | Some (x, y) => Some (functional [VZ 1; VZ x; VZ y] o (C18_ts_reencode_ok s ns okk bs bns))
+        | None => Some (functional [VZ 0; VZ 0; VZ 0] o (C18_ts_reencode_ok s ns okk bs bns))
+        end
+    | _, _ => None end
+  else if is k "units.callsites" then
+    (* source check of the adjtimex call sites: entries [category ok] *)
+    match o with
+    | [VL es] =>
+        let ps := map (fun e => match e with VL [VZ c; VZ b] => (c, b) | _ => (0, 0) end) es in
+        Some (relational true (C18_callsites_ok ps))
+    | _ => None end
+  else if is k "csptp.client" then
+    (* the real client against the scripted responder.  args: theta f1 f0a f0b utc valid (flags, spacing, order: unused here)
+       t1 t2 s2 d1max; observed: ok, returned offset, returned receive time t3, logged offset, mean path delay, C2S, S2C.
+       Model: the formulas on the timestamps the client used; its transmit time t0 is not observable and is
+       recovered from the logged C2S delay (t0 = t1 - c1 - U - C2S), every other value must then follow. *)
+    match a, o with
+    | [VZ theta; VZ f1; VZ f0a; VZ f0b; VZ utc; VZ valid; _; _; _; _; _; VZ t1; VZ t2; VZ s2; VZ d1max],
+      [VZ okk; VZ retoff; VZ t3; VZ off; VZ mpd; VZ c2s; VZ s2c] =>
+        if okk =? 1 then
+          let c1 := csptp_dur_of_interval f1 in
+          let c3 := d_add (csptp_dur_of_interval f0a) (csptp_dur_of_interval f0b) in
+          let U := if valid =? 1 then utc * 1000000000 else 0 in
+          let t0 := t1 - c1 - U - c2s in
+          let moff := csptp_clock_offset t0 t1 t2 t3 c1 c3 in
+          Some (functional [VZ 1; VZ moff; VZ t3; VZ moff; VZ (csptp_mean_path_delay t0 t1 t2 t3 c1 c3);
+                            VZ (csptp_c2s_delay t0 t1 c1 U); VZ (csptp_s2c_delay t2 t3 c3 U)] o
+                  (C18_client_ok theta U d1max (t3 - s2) retoff mpd c2s s2c))
+        else Some (relational false true)    (* an honest responder and no measurement: reported, not a property verdict *)
+    | _, _ => None end
   else if is k "csptp.interval" then
     match a, o with
     | [VZ i], [VZ d] => Some (functional [VZ (csptp_dur_of_interval i)] o (C18_interval_ok i d))
